@@ -18,7 +18,7 @@ func init() { vk.RegisterWorker("c14", workerC14) }
 
 func MainC14(prop, tier string) int {
 	r := vk.New("C14", tier)
-	r.Rule = "interactive sessions in a private tmux server with option vectors drawn from a pool (layouts, borders of every window, margins/padding incl. %, --height forms, header / header-lines / header-first, info styles, wrap, gap, scrollbar, pointer/marker widths, preview positions/sizes with {f} templates, --no-input, --multi), hostile item lists (wide, combining, control and invalid bytes, 200 KB lines, empty input), window sizes from 1x1 to 200x60 with resizes mid-session, and histories mixing POSTed actions, raw key bytes (truncated CSI, bracketed paste, garbage), SGR mouse events and resizes; ended by Enter, Escape, ctrl-c, POST abort, SIGTERM, SIGINT or become(true) at arbitrary moments relative to running preview / execute-silent / reload commands. Monitors: crash text on stderr and exit status in {0,1,2,130,143}; DEC private mode ledger over the raw tty byte stream (1000/1002/1003/1006/1015/2004/1049 end reset, 25 and 7 end set); termios before == after; $TMPDIR empty; no process of the pane's session left; every batch consumed (progress). distinct = (option set, size class, ending, running-command situation) signatures"
+	r.Rule = "interactive sessions in a private tmux server with option vectors drawn from a pool (layouts, borders of every window, margins/padding incl. %, --height forms, header / header-lines / header-first, info styles, wrap, gap, scrollbar, pointer/marker widths, preview positions/sizes with {f} templates, --no-input, --multi), hostile item lists (wide, combining, control and invalid bytes, 200 KB lines, empty input), window sizes from 1x1 to 200x60 with resizes mid-session, and histories mixing POSTed actions, raw key bytes (truncated CSI, bracketed paste, garbage), SGR mouse events and resizes; ended by Enter, Escape, ctrl-c, POST abort, SIGTERM, SIGINT or become(true) at arbitrary moments relative to running preview / execute-silent / reload commands. Monitors: crash text on stderr and exit status in {0,1,2,130,143}; DEC private mode ledger over the raw tty byte stream (1000/1002/1003/1006/1015/2004/1049 end reset, 25 and 7 end set); termios before == after; $TMPDIR empty; no process of the pane's session left; every batch consumed (progress). distinct = (option set, size class, ending, running-command situation) signatures. Directed signal sessions: after histories mixing commands that ran, commands that were refused (an item placeholder with nothing to expand), transforms and reloads, SIGINT / SIGTERM sent at trace-defined quiescence (no foreground command) must end the session with status 130 (143); a session that still answers GET after three deliveries is a violation"
 	r.Assumptions = []string{"a hang is decided by two identical goroutine dumps of the UI loop 2 s apart after a 40 s watchdog; otherwise watchdog expiry is inconclusive", "tmux 3.3a is the terminal emulator (answers the cursor position query of --height mode)", "--no-clear legitimately stays on the alternate screen and is not generated", "SIGHUP (the terminal is gone) is not among the exit paths of the property; after become(true) only crash, termios and terminal modes are checked (the process was replaced)"}
 	if _, err := fzfrun.Bin(); err != nil {
 		r.Inconclusive(err.Error())
@@ -86,6 +86,9 @@ func workerC14(r *vk.Run, w, n int, args []string) {
 		sessionC14(r, rng, i)
 		if i%10 == 3 {
 			tmuxProxySession(r, rng, i)
+		}
+		if i%5 == 1 {
+			signalSession(r, rng, i)
 		}
 	}
 }
